@@ -167,7 +167,7 @@ func mbDrawD(g *Gen) int64 {
 // ExtraGroups puts 0-3 boundary probes in front of the generated groups (so that the balances of
 // the reference state, plus rewards at the new level, are exactly what the evaluator starts from).
 func (o *minBalObs) ExtraGroups(s *Sim, g *Gen, ev *eval.BlockEvaluator, hdr *bookkeeping.BlockHeader, cands []Candidate) []Candidate {
-	o.level = hdr.RewardsLevel
+	o.level = evalRewardsLevel(ev)
 	idx := mbIndex(g.st)
 	cost := mbCosts{g.proto}
 	used := map[basics.Address]bool{}
@@ -177,7 +177,14 @@ func (o *minBalObs) ExtraGroups(s *Sim, g *Gen, ev *eval.BlockEvaluator, hdr *bo
 			front = append(front, *c)
 		}
 	}
-	return append(front, cands...)
+	out := append(front, cands...)
+	if len(g.libApps()) < 2 { // keep applications around for the box / inner-payment probes
+		if p := g.rich(richFloor); p != nil && !used[p.Addr] {
+			out = append(out, Candidate{Txns: g.sign([]*txntest.Txn{g.xbase(&txntest.Txn{Type: protocol.ApplicationCallTx, Sender: p.Addr, ApprovalProgram: appSource, ClearStateProgram: clearSource,
+				GlobalStateSchema: basics.StateSchema{NumUint: uint64(g.n(3)), NumByteSlice: uint64(1 + g.n(3))}, LocalStateSchema: basics.StateSchema{NumUint: uint64(g.n(2)), NumByteSlice: uint64(g.n(3))}})})})
+		}
+	}
+	return out
 }
 
 func (o *minBalObs) probe(s *Sim, g *Gen, hdr *bookkeeping.BlockHeader, idx map[basics.Address]mbRes, cost mbCosts, used map[basics.Address]bool) *Candidate {
@@ -190,7 +197,7 @@ func (o *minBalObs) probe(s *Sim, g *Gen, hdr *bookkeeping.BlockHeader, idx map[
 	}
 	d := mbDrawD(g)
 	kind := mbProbeKinds[g.n(len(mbProbeKinds))]
-	level := hdr.RewardsLevel
+	level := o.level
 	pay := func(from, to basics.Address, amt uint64) *txntest.Txn {
 		return g.xbase(&txntest.Txn{Type: protocol.PaymentTx, Sender: from, Receiver: to, Amount: amt})
 	}
